@@ -471,3 +471,10 @@ Definition all_offsets (u : unitd) : list N :=
   map (fun r => sec u (e_off (r_ent r))) (flatten_list 1 (u_kids u)).
 Definition convert_all (units : list unitd) : res (list (N * N)) :=
   convert_units (flat_map (fun u => root_off u :: all_offsets u) units) units [].
+
+(* ------------------------------------------------------------------------------------------ *)
+(* The graph denoted by a FilterDependencies value (used by the statements in Properties/C19.v):
+   nodes = keys on which add_entry was called, edges = the stored vectors, roots = `required`.   *)
+Definition dep_valid (d : deps) (x : N) : Prop := exists l, em_get x (d_edges d) = Some l.
+Definition dep_edge (d : deps) (x y : N) : Prop := exists l, em_get x (d_edges d) = Some l /\ In y l.
+Definition dep_required (d : deps) (x : N) : Prop := In x (d_required d).
